@@ -83,6 +83,27 @@ theorem C14_bound_chain_mustconsume_is_consumed (ti : TyInfo) (funcs : List CP) 
           rw [(hstat q).2.2]
           exact hprov j (t, l) q hmem hq
 
+/-- the validator run on the implementation's bound chain says what it should -/
+theorem C14_mustconsume_taken_validator (ch : Chain) (h : mustConsumeTakenB ch = []) :
+    ∀ f ∈ ch, f.inc = true → ∀ t ∈ f.c.mustConsume, t ≠ tUnused → f.c.out.contains t = true →
+      ∃ g ∈ ch, g.inc = true ∧ ((g.pos > f.pos ∧ g.c.inp.contains t = true) ∨
+        (((ch.find? fun f => f.c.cls == .initFunc).map (·.pos)) = some g.pos ∧ g.c.byp.contains t = true)) := by
+  intro f hf hinc t ht hu hout
+  unfold mustConsumeTakenB at h
+  simp only [List.map_eq_nil_iff, List.filter_eq_nil_iff] at h
+  have := h f hf
+  simp only [hinc, Bool.true_and, List.any_eq_true, Bool.and_eq_true, bne_iff_ne, ne_eq, Bool.not_eq_true',
+    not_exists, not_and] at this
+  have h2 := this t ht ⟨hu, hout⟩
+  cases hany : (ch.any fun g => g.inc && ((decide (g.pos > f.pos) && g.c.inp.contains t) ||
+      (((ch.find? fun f => f.c.cls == .initFunc).map (·.pos)) == some g.pos && g.c.byp.contains t))) with
+  | false => rw [hany] at h2; exact absurd rfl h2
+  | true =>
+    rw [List.any_eq_true] at hany
+    obtain ⟨g, hg, hp⟩ := hany
+    simp only [Bool.and_eq_true, Bool.or_eq_true, decide_eq_true_eq, beq_iff_eq] at hp
+    exact ⟨g, hg, hp.1, hp.2⟩
+
 /-- premises are satisfiable: a provider of a MustConsume type followed by its consumer -/
 def c14Example : List CP := [
   { id := 0, cls := .injectorFunc, out := [5], mustConsume := [5], hasMustConsume := true, group := .runGroup },
